@@ -118,6 +118,34 @@ func Pattern(tok string, domain []string) string {
 	panic("bad pattern token " + tok)
 }
 
+// JMember returns the concrete member name of an "m:" token.
+func JMember(tok string) string { return strings.TrimPrefix(tok, "m:") }
+
+// JVal returns the concrete JSET value of a "j:" token ("j:1" is the raw number 1, "j:x" the string x).
+func JVal(tok string) string { return strings.TrimPrefix(tok, "j:") }
+
+// DocText renders a document (sequence of <<member, value>> pairs in insertion order) as the
+// text sjson produces.
+func DocText(d interface{}) string {
+	pairs, _ := d.([]interface{})
+	var b strings.Builder
+	b.WriteByte('{')
+	for i, p := range pairs {
+		pp := p.([]interface{})
+		if i > 0 {
+			b.WriteByte(',')
+		}
+		b.WriteString(`"` + JMember(pp[0].(string)) + `":`)
+		if v := pp[1].(string); v == "j:1" {
+			b.WriteString("1")
+		} else {
+			b.WriteString(`"` + JVal(v) + `"`)
+		}
+	}
+	b.WriteByte('}')
+	return b.String()
+}
+
 // Tok resolves any category-prefixed token to its concrete RESP string.
 func Tok(tok string) (string, bool) {
 	switch {
@@ -129,6 +157,8 @@ func Tok(tok string) (string, bool) {
 		return FName(tok), true
 	case strings.HasPrefix(tok, "h:"):
 		return Hook(tok), true
+	case strings.HasPrefix(tok, "j:"):
+		return JVal(tok), true
 	case strings.HasPrefix(tok, "v:"):
 		if v, ok := FVals[tok]; ok {
 			return v.Stored, true
